@@ -310,6 +310,52 @@ Section WithH.
     eexists. split; reflexivity.
   Qed.
 
+  (* ---------- a connection fault at the re-send; sequences through one middleware ---------- *)
+
+  Theorem exchange_no_fault rp first rsp user pass cnonce :
+    digest_exchange_f H None rp first rsp user pass cnonce = digest_exchange H rp first rsp user pass cnonce.
+  Proof. unfold digest_exchange_f, digest_exchange. destruct (digest_middleware _ _ _ _ _ _ _); reflexivity. Qed.
+
+  (* whatever happens to the connection of the re-send, every request after the first is the ONE
+     answer the middleware computed - same Authorization, method, URI, Content-Type and body as
+     the original - at most twice (the transport's replay), never anything else *)
+  Theorem replay_intact fault rp first rsp user pass cnonce :
+    length (digest_exchange_f H fault rp first rsp user pass cnonce) <= 3 /\
+    hd_error (digest_exchange_f H fault rp first rsp user pass cnonce) = Some first /\
+    forall q, In q (tl (digest_exchange_f H fault rp first rsp user pass cnonce)) ->
+      digest_middleware H rp first rsp user pass cnonce = Resent q /\
+      In q (tl (digest_exchange H rp first rsp user pass cnonce)) /\
+      w_method q = w_method first /\ w_uri q = w_uri first /\
+      w_ctype q = w_ctype first /\ w_body q = w_body first.
+  Proof.
+    pose proof (answered_once_body_intact rp first rsp user pass cnonce) as [_ [_ A]].
+    unfold digest_exchange_f, digest_exchange in *.
+    destruct (digest_middleware H rp first rsp user pass cnonce) as [|e|q0] eqn:M.
+    - split; [cbn; lia|]. split; [reflexivity|]. intros q [].
+    - split; [cbn; lia|]. split; [reflexivity|]. intros q [].
+    - assert (X : forall q, q = q0 -> Resent q0 = Resent q /\ In q (tl [first; q0]) /\
+                    w_method q = w_method first /\ w_uri q = w_uri first /\
+                    w_ctype q = w_ctype first /\ w_body q = w_body first).
+      { intros q ->. split; [reflexivity|]. split; [left; reflexivity|].
+        destruct (A q0 (or_introl eq_refl)) as [_ [_ [_ [H1 [H2 [H3 [H4 _]]]]]]]. auto. }
+      destruct fault as [[|]|]; (split; [cbn; lia|]); (split; [reflexivity|]);
+        intros q Hq; cbn in Hq; apply X; intuition congruence.
+  Qed.
+
+  (* no state is carried from one call to the next: a session is its calls side by side, and the
+     k-th call is answered from its own challenge alone, whatever came before or comes after *)
+  Theorem session_app user pass xs ys :
+    digest_session H user pass (xs ++ ys) = digest_session H user pass xs ++ digest_session H user pass ys.
+  Proof. unfold digest_session. apply map_app. Qed.
+
+  Theorem session_independent user pass before after rp first rsp cnonce :
+    nth_error (digest_session H user pass (before ++ (rp, first, rsp, cnonce) :: after)) (length before) =
+    Some (digest_exchange H rp first rsp user pass cnonce).
+  Proof.
+    unfold digest_session. rewrite map_app. rewrite nth_error_app2 by (rewrite map_length; lia).
+    rewrite map_length, Nat.sub_diag. reflexivity.
+  Qed.
+
   (* a supported challenge, once parsed, is always answered (no error), whatever the nonce, the
      client nonce and the hash function *)
   Theorem supported_is_answered first rsp user pass cnonce c :
